@@ -99,3 +99,32 @@ Definition anim_alpha_preserved_statement (fx : fixes) : Prop :=
     new_encoder W H opts = Some st0 ->
     close has_meta simple (run_frames fx oracle st0 frames) = Some out ->
     same_show_by alpha_only W H (eo_loop opts) out (playback rt_ll rt_ly fx out) (inputs_of W H frames).
+
+(* ------------------------------------------------------------------ *)
+(* AddFrame calls may fail (frame encoder error at chosen calls, muxer frame limit
+   [maxf]): the file plays back exactly the frames of the calls that returned nil,
+   with their display times.  [keep_dur] selects the order of operations in
+   increasePreviousDuration (true: the code under test). *)
+
+Definition anim_error_roundtrip_statement (keep_dur : bool) : Prop :=
+  forall (rt_ll rt_ly : img -> img) (W H : Z) (opts : eopts) (frames : list (img * Z))
+         (oracle : nat -> orc) (fails : nat -> efail) (maxf : Z) (has_meta simple : bool)
+         (st0 stf : est) (acc : list (img * Z)) (out : output),
+    codec_lossless rt_ll ->
+    wf_canvas_dims W H -> lossless_opts opts -> Forall wf_input frames ->
+    new_encoder W H opts = Some st0 ->
+    run_e repaired keep_dur maxf oracle fails st0 frames = (stf, acc) ->
+    close has_meta simple stf = Some out ->
+    same_show W H (eo_loop opts) out (playback rt_ll rt_ly repaired out) (inputs_of W H acc).
+
+Definition anim_error_alpha_statement (keep_dur : bool) : Prop :=
+  forall (rt_ll rt_ly : img -> img) (W H : Z) (opts : eopts) (frames : list (img * Z))
+         (oracle : nat -> orc) (fails : nat -> efail) (maxf : Z) (has_meta simple : bool)
+         (st0 stf : est) (acc : list (img * Z)) (out : output),
+    codec_lossless rt_ll -> codec_alpha_exact rt_ly ->
+    wf_canvas_dims W H -> alpha_opts opts -> Forall wf_input frames ->
+    new_encoder W H opts = Some st0 ->
+    run_e repaired keep_dur maxf oracle fails st0 frames = (stf, acc) ->
+    close has_meta simple stf = Some out ->
+    same_show_by alpha_only W H (eo_loop opts) out (playback rt_ll rt_ly repaired out)
+                 (inputs_of W H acc).
